@@ -191,6 +191,7 @@ type pathResult struct {
 	Covers    []string
 	Viols     []violation
 	Unknowns  int
+	BranchUnknowns int
 	Steps     int64
 	Inputs    []modelInput // model of the path (if sampled)
 	Obs       map[string]string
@@ -233,6 +234,7 @@ type HarnessResult struct {
 	Decisions     int64                  `json:"decisions"`
 	Steps         int64                  `json:"ssa_instructions_executed"`
 	Unknowns      int                    `json:"solver_unknowns"`
+	BranchUnknowns int                   `json:"branch_feasibility_unknowns"`
 	Asserts       map[string]*AssertStat `json:"asserts"`
 	Covers        map[string]int         `json:"covers"`
 	Violations    []violation            `json:"violations"`
@@ -383,6 +385,7 @@ func (h *harnessRun) record(r pathResult) {
 	}
 	R.Steps += r.Steps
 	R.Unknowns += r.Unknowns
+	R.BranchUnknowns += r.BranchUnknowns
 	switch r.Status {
 	case "done":
 		R.Done++
@@ -494,6 +497,7 @@ func (m *machine) runPath(fn *ssa.Function, prefix []dec) (res pathResult, alts 
 	}
 	sort.Strings(res.Covers)
 	res.Unknowns = m.unknowns
+	res.BranchUnknowns = m.branchUnknowns
 	res.Steps = m.steps
 	res.Stubs = m.stubCalls
 	res.Events = m.events
